@@ -82,6 +82,18 @@ def parse(h, tower=False, overrides=None) -> Node:
         return P(h.__supertype__)
     TAT = getattr(typing, 'TypeAliasType', None)
     if TAT is not None and isinstance(h, TAT):                # PEP 695 alias: means its value
+        if _mentions_alias(h.__value__, h):
+            # recursive alias: unrolled RECURSION_UNROLL times, the innermost occurrence cut off by `bottom`
+            # ([[.]] = nothing, MR[.] = nothing: an under-approximation on both sides, so C01 / C02 stay sound
+            # whatever depth beartype itself recurses to -- it must go at least one level)
+            depth = _REC_DEPTH.get(id(h), 0)
+            if depth >= RECURSION_UNROLL:
+                return Node('bottom', hint=h)
+            _REC_DEPTH[id(h)] = depth + 1
+            try:
+                return P(h.__value__)
+            finally:
+                _REC_DEPTH[id(h)] = depth
         return P(h.__value__)
     origin = typing.get_origin(h)
     args = typing.get_args(h)
@@ -146,6 +158,16 @@ def parse(h, tower=False, overrides=None) -> Node:
     if origin is None and hasattr(h, '__origin__') and isinstance(h.__origin__, type):
         return Node('class', h.__origin__, hint=h)
     raise Unsupported(f'hint {h!r}')
+
+
+RECURSION_UNROLL = 2
+_REC_DEPTH = {}
+
+
+def _mentions_alias(v, alias):
+    if v is alias:
+        return True
+    return any(_mentions_alias(a, alias) for a in typing.get_args(v) if a is not Ellipsis and not isinstance(a, (int, str, bytes, bool, type(None), list)))
 
 
 def _unpacked(a):
@@ -237,6 +259,8 @@ class Sem:
         k = n.kind
         if k == 'any':
             return z3.BoolVal(True)
+        if k == 'bottom':                 # cut-off of a recursive alias: nothing is *known* to conform
+            return z3.BoolVal(False)
         if k == 'class':
             return U.isinstance(x, n.cls)
         if k == 'union':
@@ -313,7 +337,7 @@ class Sem:
         U = self.U
         k = n.kind
         F = z3.BoolVal(False)
-        if k == 'any':
+        if k in ('any', 'bottom'):        # bottom: nothing is known to be rejected either
             return F
         if k == 'class':
             return z3.Not(U.isinstance(x, n.cls))
@@ -359,7 +383,7 @@ class Sem:
         U = self.U
         k = n.kind
         S = lambda c, t: self.sampled(c, t, r, is_random)
-        if k in ('any',):
+        if k in ('any', 'bottom'):
             return z3.BoolVal(True)
         if k in ('class', 'literal', 'type'):
             return self.full(n, x)
@@ -415,6 +439,8 @@ class Sem:
 def conforms(obj, n: Node, preds=None) -> bool:
     """Does real object ``obj`` fully conform to Node ``n``?  (Independent deep walk.)"""
     k = n.kind
+    if k == 'bottom':
+        return False
     if k == 'any':
         return True
     if k == 'class':
@@ -499,6 +525,8 @@ def vale_concrete(t, obj):
 def must_reject(obj, n: Node) -> bool:
     """Concrete MR[H]: is ``obj`` a violation the O(1) strategy is obliged to see?"""
     k = n.kind
+    if k == 'bottom':
+        return False
     if k == 'any':
         return False
     if k == 'class':
@@ -547,6 +575,8 @@ def sampled_ok(obj, n: Node, r: int, is_random=True) -> bool:
     for an accepted object under draw ``r``?"""
     k = n.kind
     S = lambda o, c: sampled_ok(o, c, r, is_random)
+    if k == 'bottom':
+        return True
     if k == 'any':
         return True
     if k in ('class', 'literal', 'type'):
